@@ -153,6 +153,12 @@ def getitem(I, base, idx):
                 break
         if raw is not None:
             return I.call_repo(raw, [base, idx], {}, None)
+    import numpy as _np
+
+    if base is _np.c_:
+        from . import models_np
+
+        return models_np.np_c_getitem(I, idx)
     if isinstance(base, Opaque) and base.tag.startswith("h5"):
         from . import models_h5
 
